@@ -1480,13 +1480,18 @@ func (tr *Tr) wantElems() bool {
 
 // atCallAsserts evaluates `at call Callee[#k] assert|assume e` annotations of the function under contract.
 func (f *Frame) atCallAsserts(cc *ssa.CallCommon, in ssa.Instruction, display string, args []Val) {
-	if !f.top || f.contract == nil || in == nil {
+	if in == nil || f.tr.contract == nil {
 		return
 	}
 	tr := f.tr
 	full := f.callName[in] // display#k
-	for i, ac := range f.contract.AtCalls {
-		if ac.Callee != display {
+	// inside an inlined closure/function the annotation names the call as `<inlined function>/<callee>`
+	want := display
+	if !f.top {
+		want = f.fn.Name() + "/" + display
+	}
+	for i, ac := range tr.contract.AtCalls {
+		if ac.Callee != want {
 			continue
 		}
 		if ac.K != 0 && full != fmt.Sprintf("%s#%d", display, ac.K) {
